@@ -537,7 +537,7 @@ Proof. exact nodup_example. Qed.
 Theorem c16_zero_points_any_range_accepted : forall s id v hs ms,
   Inv s -> st_freed s = false -> get_new s id = Some v -> vn_nf v = 0 ->
   (forall h, In h hs -> ((0 <= h)%Z /\ In (Z.to_nat h) (vn_params v)) \/
-                        exists n p, get_param (st_pt s) h = Some (n, p) /\ forall o sv, p_kind p <> KCorrelated o sv) ->
+                        exists n p, get_param (st_pt s) h = Some (n, p) /\ forall o sf sv, p_kind p <> KCorrelated o sf sv) ->
   exists s' v', step s (OAddStd id hs ms) = (s', ok_int 0) /\ get_new s' id = Some v' /\
                 vn_meas v' = vn_meas v ++ [mkMeas (map Z.to_nat hs) ms].
 Proof. exact zero_points_standard_added. Qed.
@@ -608,9 +608,36 @@ Example c16_values_vector_satisfiable :
              get_value_q (st_pt s') 3 3 = Some (qval (32, 0)).
 Proof. exact values_vector_example. Qed.
 
-(* SCOPE NOTE (review round 2): correlated parameters are modelled with a NULL sigma frequency vector only.
-   vnacal_make_correlated_parameter called with its own sigma_frequency_vector (non-negative / ascending /
-   disjointness tests, and the clamp of the parameter's frequency range by that grid in
-   _vnacal_get_parameter_frange) is outside CalTabModel: c16_rejected_standard_unchanged,
-   c16_acceptable_standard_added, TableSpec.acceptable / in_range and c16_walks_terminate's "frange = range_of
-   (chain end)" are statements about parameters made with sigma_frequency_vector = NULL. *)
+(* SCOPE (review round 2, MEDIUM 1, done in the last box): correlated parameters with their OWN sigma frequency
+   grid are in the model (KCorrelated o sf sv; OMakeCorrelated h n sf: with one sigma value the grid is ignored;
+   NULL needs a vector initial guess of n points; an own grid must be non-negative, strictly ascending and not
+   disjoint with a vector initial guess - fix DC93's NaN / inf refusals and the spline's MIN_DX test cannot be
+   expressed / cannot fail on integers; a caller array shorter than the count is RUndef) and in the specification:
+   TableSpec.in_range clamps the range of the chain end with the grid of the parameter asked about (not of the
+   parameters below it), as _vnacal_get_parameter_frange does.  c16_rejected_standard_unchanged,
+   c16_acceptable_standard_added, c16_unheld_invisible_not_acceptable, c16_deleted_while_held_still_works,
+   c16_zero_points_any_range_accepted and the walk theorems above are proved for THIS model and specification. *)
+Require Import LV.Interp.FrangeBase LV.Gen.RangeGen LV.CalTab.CalTabSigma.
+
+(* the clamp of the model is C10's regenerated frange_clamp on the first and last entry of the grid *)
+Theorem c16_sigma_clamp_is_c10_clamp : forall fs r,
+  xrange (clamp_range (Some fs) r) = frange_clamp (xz (hd 0%Z fs)) (xz (last fs 0%Z)) (fst (xrange r)) (snd (xrange r)).
+Proof. exact clamp_range_is_frange_clamp. Qed.
+Print Assumptions c16_sigma_clamp_is_c10_clamp.
+
+(* reachable instance (the review's reproducer): vector over 1..5, unknown on it, correlated 5 with the own grid
+   2 3 4, correlated 6 with NULL: a vnacal_new_t over 1..5 refuses 5 with the whole state unchanged and adds 6, one
+   over 2..4 adds 5; disjoint / negative / not ascending grids are refused by make_correlated *)
+Example c16_sigma_grid_satisfiable :
+  let s := run_state sigma_script in
+  Inv s /\ st_freed s = false /\
+  sigma_at (st_pt s) 5 = Some [2; 3; 4]%Z /\ sigma_at (st_pt s) 6 = None /\
+  frange_c (S (length (pt_slots (st_pt s)))) (st_pt s) 5 = Some (2, 4)%Z /\
+  frange_c (S (length (pt_slots (st_pt s)))) (st_pt s) 6 = Some (1, 5)%Z /\
+  step s (OAddStd 0 [5%Z] [(1, 1); (1, 1); (1, 1); (1, 1); (1, 1)]%Z) = (s, fail_usage) /\
+  (exists s', step s (OAddStd 0 [6%Z] [(1, 1); (1, 1); (1, 1); (1, 1); (1, 1)]%Z) = (s', ok_int 0)) /\
+  (exists s', step s (OAddStd 1 [5%Z] [(1, 1); (1, 1); (1, 1)]%Z) = (s', ok_int 0)) /\
+  step s (OMakeCorrelated 4 2 (Some [6; 9]%Z) 0) = (s, fail_usage) /\
+  step s (OMakeCorrelated 4 2 (Some [-1; 3]%Z) 0) = (s, fail_usage) /\
+  step s (OMakeCorrelated 4 2 (Some [3; 3]%Z) 0) = (s, fail_usage).
+Proof. exact sigma_example. Qed.
